@@ -28,4 +28,6 @@ CASES = [
     dict(expect="silent", desc="Observer.on_error early-return style", edits=[dict(file=OBR,
          old="        if not self.is_stopped:\n            self.is_stopped = True\n            self._on_error_core(error)",
          new="        if self.is_stopped:\n            return\n        self.is_stopped = True\n        self._on_error_core(error)", count=1)]),
+    dict(expect="fire", desc="seed C09-r3/2: fail() disposes before testing is_stopped", names="R3-guard", edits=[dict(file="reactivex/observer/autodetachobserver.py",
+         old="    def fail(self, exn: Exception) -> bool:\n        if self.is_stopped:", new="    def fail(self, exn: Exception) -> bool:\n        self.dispose()\n\n        if self.is_stopped:")]),
 ]
